@@ -14,6 +14,7 @@ import (
 	"bytes"
 	"compress/gzip"
 	"context"
+	"database/sql"
 	"encoding/base64"
 	"encoding/json"
 	"errors"
@@ -171,6 +172,73 @@ type nopWriter struct{}
 
 func (nopWriter) StoreCredential(vc.VerifiableCredential, *time.Time) error { return nil }
 
+// txGate stops ONE goroutine at the point where it opens its next SQL transaction on the status-list database handle
+// (every read the operation made before its transaction lies before the gate, the locked section behind it).
+type txGate struct {
+	mu      sync.Mutex
+	armed   bool
+	reached chan struct{}
+	release chan struct{}
+}
+
+// arm: the next goroutine that opens a transaction stops; it goes on when the returned release channel is closed.
+func (g *txGate) arm() (reached, release chan struct{}) {
+	g.mu.Lock()
+	g.armed, g.reached, g.release = true, make(chan struct{}), make(chan struct{})
+	reached, release = g.reached, g.release
+	g.mu.Unlock()
+	return
+}
+
+func (g *txGate) disarm() {
+	g.mu.Lock()
+	g.armed = false
+	g.mu.Unlock()
+}
+
+func (g *txGate) enter() {
+	g.mu.Lock()
+	if !g.armed {
+		g.mu.Unlock()
+		return
+	}
+	g.armed = false
+	reached, release := g.reached, g.release
+	g.mu.Unlock()
+	close(reached)
+	<-release
+}
+
+// gatedPool is the gorm.ConnPool of the issuer node's StatusList2021: the real *sql.DB, with BeginTx passing the gate.
+type gatedPool struct {
+	*sql.DB
+	gate *txGate
+}
+
+func (p *gatedPool) BeginTx(ctx context.Context, opts *sql.TxOptions) (*sql.Tx, error) {
+	p.gate.enter()
+	return p.DB.BeginTx(ctx, opts)
+}
+func (p *gatedPool) GetDBConn() (*sql.DB, error) { return p.DB, nil }
+
+// pending is an operation of the issuer node that was started in its own goroutine and stands at the gate.
+type pending struct {
+	done      chan error
+	release   chan struct{}
+	cred      *vc.VerifiableCredential
+	url       string
+	beginSeq  int
+	published int
+}
+
+func (pd *pending) open() {
+	select {
+	case <-pd.release:
+	default:
+		close(pd.release)
+	}
+}
+
 type fetchRec struct {
 	URL    string
 	Mode   string
@@ -236,7 +304,7 @@ func (d *doer) Do(req *http.Request) (*http.Response, error) {
 	}
 	body, _ := json.Marshal(cred)
 	rec.Target = target
-	rec.Served = d.w.run.onServed(target, body)
+	rec.Served = d.w.run.onServed(target, body, d.w.run.opSeq+1)
 	return respond(200, body)
 }
 
@@ -261,6 +329,7 @@ func parseListURL(u string) (did.DID, int, bool) {
 }
 
 type issuerNode struct {
+	gate *txGate
 	db   *gorm.DB
 	ks   *nutsCrypto.Crypto
 	sl   *revocation.StatusList2021
@@ -306,7 +375,13 @@ func buildWorld(t *testing.T, in input) *world {
 		n := &issuerNode{db: eng.GetSQLDatabase(), net: &fakeNet{}}
 		n.ks = nutsCrypto.NewDatabaseCryptoInstance(n.db)
 		n.doer = &doer{w: w, node: "local"}
-		n.sl = revocation.NewStatusList2021(n.db, n.doer, issuerBase)
+		// the status list works on the same database through a handle whose transactions pass the gate
+		sqlDB, err := n.db.DB()
+		must(t, err)
+		n.gate = &txGate{}
+		gdb := n.db.Session(&gorm.Session{Context: context.Background()})
+		gdb.Statement.ConnPool = &gatedPool{DB: sqlDB, gate: n.gate}
+		n.sl = revocation.NewStatusList2021(gdb, n.doer, issuerBase)
 		backup, err := eng.GetProvider("vcr").GetKVStore("backup-issued-credentials", storage.PersistentStorageClass)
 		must(t, err)
 		istore, err := issuer.NewStore(n.db, filepath.Join(dir, "issuer", "issued-credentials.db"), backup)
@@ -419,33 +494,44 @@ func (w *world) forgeList(url string, ix []int) ([]byte, error) {
 	r := w.run
 	now := time.Now()
 	exp := now.Add(24 * time.Hour)
-	id := ssi.MustParseURI(r.atkWeb.String() + "#" + uuid.NewString())
+	// the other party is, per script, unrelated to / a prefix of / the parent of / an extension of the list's issuer
+	signer, signerKid := r.atkWeb, r.atkWebKid
+	if victim, _, ok := parseListURL(url); ok {
+		rel := []string{"unrelated", "prefix", "parent", "extension"}[int(r.sc.Seed%4+4)%4]
+		var err error
+		if signer, signerKid, err = r.forger(victim, rel); err != nil {
+			return nil, err
+		}
+	}
+	r.forgedBy = signer.String()
+	id := ssi.MustParseURI(signer.String() + "#" + uuid.NewString())
 	tpl := vc.VerifiableCredential{
 		Context:        []ssi.URI{vc.VCContextV1URI(), revocation.StatusList2021ContextURI},
 		Type:           []ssi.URI{vc.VerifiableCredentialTypeV1URI(), ssi.MustParseURI(revocation.StatusList2021CredentialType)},
 		ID:             &id,
-		Issuer:         r.atkWeb.URI(),
+		Issuer:         signer.URI(),
 		IssuanceDate:   now,
 		ExpirationDate: &exp,
 		CredentialSubject: []any{revocation.StatusList2021CredentialSubject{ID: url, Type: revocation.StatusList2021CredentialSubjectType,
 			StatusPurpose: revocation.StatusPurposeRevocation, EncodedList: compressBits(ix)}},
 	}
-	return w.signLD(w.atkKS, tpl, r.atkWebKid, now)
+	return w.signLD(w.atkKS, tpl, signerKid, now)
 }
 
 // ------------------------------------------------------------------------------------------------ one script
 
 type credInfo struct {
-	name    string
-	kind    string // sl | net | foreign
-	iss     string // model issuer
-	vc      *vc.VerifiableCredential
-	url     string // status list named by the credential
-	index   int
-	page    int
-	slot    int
-	revoked bool   // ground truth: the issuer revoked it
-	payload []byte // published network revocation
+	name       string
+	kind       string // sl | net | foreign
+	iss        string // model issuer
+	vc         *vc.VerifiableCredential
+	url        string // status list named by the credential
+	index      int
+	page       int
+	slot       int
+	revoked    bool   // ground truth: the issuer revoked it
+	revokedSeq int    // .. as the n-th completed revocation of the script
+	payload    []byte // published network revocation
 }
 
 type servedDoc struct {
@@ -481,6 +567,10 @@ type runState struct {
 	usedSlots  map[string]string          // url#index -> credential
 	must       map[string]map[string]bool // node -> credentials the node is obliged to reject
 	lastBits   map[string][]int           // url -> bits of the previous served version
+	opSeq      int                        // number of completed revocations
+	forgedBy   string                     // issuer of the last forged status list
+	pend       map[string]*pending        // operations standing at the transaction gate, by name
+	forgers    map[string]string          // lookalike DID -> key id
 	delivered  map[string]string          // node|url -> mode of the last list document the node received for the URL
 	aged       int64
 	timeline   []tickMark
@@ -499,7 +589,7 @@ func (w *world) newRun(sc script) (*runState, error) {
 	w.seq++
 	r := &runState{w: w, sc: sc, sid: fmt.Sprintf("z%dq%d", os.Getpid(), w.seq), res: &result{ID: sc.ID, Violations: []violation{}, Drift: []string{}, Stats: map[string]int{}},
 		web: map[string]did.DID{}, nuts: map[string]did.DID{}, creds: map[string]*credInfo{}, alloc: map[string][]int{}, lastURL: map[string]string{},
-		usedSlots: map[string]string{}, must: map[string]map[string]bool{"n1": {}, "n2": {}}, lastBits: map[string][]int{}, dummyRev: map[string][]byte{}, delivered: map[string]string{}}
+		usedSlots: map[string]string{}, must: map[string]map[string]bool{"n1": {}, "n2": {}}, lastBits: map[string][]int{}, dummyRev: map[string][]byte{}, delivered: map[string]string{}, pend: map[string]*pending{}, forgers: map[string]string{}}
 	w.run = r
 	r.timeline = []tickMark{{at: time.Time{}, total: 0}}
 	for _, i := range []string{"i1", "i2"} {
@@ -600,7 +690,8 @@ func entryOf(c *vc.VerifiableCredential) (*revocation.StatusList2021Entry, error
 }
 
 // onServed: oracle over every list credential the issuer node serves (explicit Serve and GETs made by verifier nodes).
-func (r *runState) onServed(url string, body []byte) *servedDoc {
+// beginSeq: revocations completed before the GET began are numbered < beginSeq; their bits are owed.
+func (r *runState) onServed(url string, body []byte, beginSeq int) *servedDoc {
 	w := r.w
 	sd := &servedDoc{URL: url}
 	var cred vc.VerifiableCredential
@@ -680,7 +771,11 @@ func (r *runState) onServed(url string, body []byte) *servedDoc {
 	}
 	for _, c := range r.creds {
 		if c.kind == "sl" && c.url == url && c.revoked && !have[c.index] {
-			r.drift("served list %s lacks the bit %d of revoked credential %s", url, c.index, c.name)
+			if c.revokedSeq < beginSeq {
+				r.viol("bit-cleared", "StatusList2021.Credential", fmt.Sprintf("bit %d of %s (credential %s) was set by the issuer before this GET began and is clear in the served list", c.index, url, c.name))
+			} else {
+				r.drift("served list %s lacks the bit %d of credential %s, revoked while the GET was under way", url, c.index, c.name)
+			}
 		}
 	}
 	return sd
@@ -746,7 +841,7 @@ func (r *runState) judge(c *credInfo, node, src, verdict string, fetched bool) {
 	if mustSet[c.name] && verdict != "revoked" {
 		switch {
 		case forged:
-			r.viol("forged-list-honoured", "statuslist2021_verifier.update", fmt.Sprintf("%s: revoked credential %s verifies again on %s after a status list issued by another party (%s) was served for %s", src, c.name, node, r.atkWeb, c.url))
+			r.viol("forged-list-honoured", "statuslist2021_verifier.update", fmt.Sprintf("%s: revoked credential %s verifies again on %s after a status list issued by another party (%s) was served for %s", src, c.name, node, r.forgedBy, c.url))
 		case other:
 			r.viol("other-list-honoured", "statuslist2021_verifier.update", fmt.Sprintf("revoked credential %s verifies again on %s after another list was served for %s", c.name, node, c.url))
 		default:
@@ -756,7 +851,7 @@ func (r *runState) judge(c *credInfo, node, src, verdict string, fetched bool) {
 	if verdict == "revoked" && !r.revocable(c) {
 		switch {
 		case forged:
-			r.viol("forged-list-honoured", "statuslist2021_verifier.update", fmt.Sprintf("%s: credential %s fails as revoked on %s although its issuer never revoked it: a status list issued by another party (%s) served for %s was honoured", src, c.name, node, r.atkWeb, c.url))
+			r.viol("forged-list-honoured", "statuslist2021_verifier.update", fmt.Sprintf("%s: credential %s fails as revoked on %s although its issuer never revoked it: a status list issued by another party (%s) served for %s was honoured", src, c.name, node, r.forgedBy, c.url))
 		case other:
 			r.viol("other-list-honoured", "statuslist2021_verifier.update", fmt.Sprintf("credential %s fails as revoked on %s by a list other than the one it names (%s)", c.name, node, c.url))
 		default:
@@ -847,11 +942,49 @@ func (r *runState) doStep(st step) error {
 		if c == nil {
 			return fmt.Errorf("unknown credential %s", st.str("c"))
 		}
+		var err error
 		before := len(w.inode.net.published)
-		_, err := w.inode.iss.Revoke(w.ctx, *c.vc.ID)
+		switch st.str("phase") {
+		case "begin": // run the operation up to the point where it opens its transaction; other steps come in between
+			pd := &pending{done: make(chan error, 1), published: before}
+			reached, release := w.inode.gate.arm()
+			pd.release = release
+			go func() { _, e := w.inode.iss.Revoke(w.ctx, *c.vc.ID); pd.done <- e }()
+			select {
+			case <-reached:
+				r.pend["revoke:"+c.name] = pd
+				return nil
+			case e := <-pd.done: // ended without a transaction (e.g. refused before)
+				w.inode.gate.disarm()
+				pd.done <- e
+				r.pend["revoke:"+c.name] = pd
+				return nil
+			case <-time.After(30 * time.Second):
+				return fmt.Errorf("revoke %s neither reached its transaction nor returned", c.name)
+			}
+		case "end":
+			pd := r.pend["revoke:"+c.name]
+			if pd == nil {
+				return fmt.Errorf("no pending revoke of %s", c.name)
+			}
+			delete(r.pend, "revoke:"+c.name)
+			before = pd.published
+			pd.open()
+			select {
+			case err = <-pd.done:
+			case <-time.After(30 * time.Second):
+				return fmt.Errorf("pending revoke of %s does not return", c.name)
+			}
+		default:
+			_, err = w.inode.iss.Revoke(w.ctx, *c.vc.ID)
+		}
 		res := "ok"
 		switch {
 		case err == nil:
+			if !c.revoked {
+				r.opSeq++
+				c.revokedSeq = r.opSeq
+			}
 			c.revoked = true
 		case errors.Is(err, types.ErrRevoked):
 			res = "already"
@@ -880,19 +1013,76 @@ func (r *runState) doStep(st step) error {
 			return fmt.Errorf("serve %s: %w", url, err)
 		}
 		body, _ := json.Marshal(cred)
-		sd := r.onServed(url, body)
+		sd := r.onServed(url, body, r.opSeq+1)
 		r.ev(map[string]any{"ev": "serve", "i": i, "p": p, "signer": r.modelIssuer(sd.Issuer), "left": sd.Left, "bits": r.modelBits(url, sd.Bits), "sigok": sd.SigOK})
+	case "ServeBegin": // the GET up to the point where it opens its transaction (if it needs one)
+		i, p, sname := st.str("i"), st.num("p"), st.str("s")
+		url := issuerBase + "/statuslist/" + r.web[i].String() + "/" + strconv.Itoa(p)
+		pd := &pending{done: make(chan error, 1), url: url, beginSeq: r.opSeq + 1}
+		reached, release := w.inode.gate.arm()
+		pd.release = release
+		go func() {
+			cred, e := w.inode.iss.StatusList(w.ctx, r.web[i], p)
+			pd.cred = cred
+			pd.done <- e
+		}()
+		select {
+		case <-reached:
+			r.pend["serve:"+sname] = pd
+			r.ev(map[string]any{"ev": "serve.begin", "s": sname, "i": i, "p": p, "res": "resign"})
+		case e := <-pd.done:
+			w.inode.gate.disarm()
+			if e != nil {
+				return fmt.Errorf("serve %s: %w", url, e)
+			}
+			body, _ := json.Marshal(pd.cred)
+			sd := r.onServed(url, body, pd.beginSeq)
+			r.ev(map[string]any{"ev": "serve.begin", "s": sname, "i": i, "p": p, "res": "cached",
+				"served": map[string]any{"signer": r.modelIssuer(sd.Issuer), "left": sd.Left, "bits": r.modelBits(url, sd.Bits), "sigok": sd.SigOK}})
+		case <-time.After(30 * time.Second):
+			return fmt.Errorf("GET %s neither reached its transaction nor returned", url)
+		}
+	case "ServeResign":
+		sname := st.str("s")
+		pd := r.pend["serve:"+sname]
+		if pd == nil {
+			return fmt.Errorf("no pending GET of %s", sname)
+		}
+		delete(r.pend, "serve:"+sname)
+		pd.open()
+		select {
+		case e := <-pd.done:
+			if e != nil {
+				return fmt.Errorf("serve %s: %w", pd.url, e)
+			}
+		case <-time.After(30 * time.Second):
+			return fmt.Errorf("pending GET %s does not return", pd.url)
+		}
+		body, _ := json.Marshal(pd.cred)
+		sd := r.onServed(pd.url, body, pd.beginSeq)
+		r.ev(map[string]any{"ev": "serve.end", "s": sname,
+			"served": map[string]any{"signer": r.modelIssuer(sd.Issuer), "left": sd.Left, "bits": r.modelBits(pd.url, sd.Bits), "sigok": sd.SigOK}})
 	case "Tick":
 		if err := r.ageRows(w.tick); err != nil {
 			return err
 		}
 		r.ev(map[string]any{"ev": "tick"})
 	case "Deliver":
-		c, k, n := r.creds[st.str("c")], st.str("k"), w.nodes[st.str("n")]
+		c, k, rel, n := r.creds[st.str("c")], st.str("k"), st.str("r"), w.nodes[st.str("n")]
 		if c == nil || n == nil {
 			return fmt.Errorf("bad Deliver step %v", st)
 		}
-		payload, err := r.revocationDoc(c, k)
+		if rel == "" || rel == "self" {
+			rel = "unrelated"
+			if k == "genuine" {
+				rel = "self"
+			}
+		}
+		payload, err := r.revocationDoc(c, k, rel)
+		if err != nil {
+			return err
+		}
+		had, err := n.ver.IsRevoked(*c.vc.ID)
 		if err != nil {
 			return err
 		}
@@ -908,12 +1098,13 @@ func (r *runState) doStep(st step) error {
 			if rerr != nil {
 				r.drift("genuine revocation of %s rejected by %s: %v", c.name, n.name, rerr)
 			}
-		} else if stored && !c.revoked {
-			r.viol("forged-revocation-accepted", "verifier.RegisterRevocation", fmt.Sprintf("%s: %s now holds a revocation of %s which its issuer never revoked (receiver error: %v)", k, n.name, c.name, rerr))
+		} else if stored && (!had || !c.revoked) {
+			r.viol("forged-revocation-accepted", "verifier.RegisterRevocation", fmt.Sprintf("%s by a party whose DID is %s to the issuer's (%s): %s now holds a revocation of %s that its issuer did not make (receiver error: %v)",
+				k, rel, r.forgerOf(r.didOf(c), rel), n.name, c.name, rerr))
 		} else if rerr == nil {
-			r.drift("forged revocation (%s) of %s was not refused by the receiver of %s", k, c.name, n.name)
+			r.drift("forged revocation (%s/%s) of %s was not refused by the receiver of %s", k, rel, c.name, n.name)
 		}
-		r.ev(map[string]any{"ev": "deliver", "c": c.name, "k": k, "n": n.name, "res": stored, "accepted": rerr == nil})
+		r.ev(map[string]any{"ev": "deliver", "c": c.name, "k": k, "r": rel, "n": n.name, "res": stored, "accepted": rerr == nil})
 	case "Verify":
 		c, n, src := r.creds[st.str("c")], w.nodes[st.str("n")], st.str("src")
 		if c == nil || n == nil {
@@ -1011,22 +1202,82 @@ func (r *runState) modelIssuer(d string) string {
 	return "?"
 }
 
-// revocationDoc: the genuine published revocation, or a forged one built with the outsider's keys.
-func (r *runState) revocationDoc(c *credInfo, kind string) ([]byte, error) {
+// didOf: the DID that issued the credential
+func (r *runState) didOf(c *credInfo) did.DID {
+	if c.kind == "net" {
+		return r.nuts[c.iss]
+	}
+	return r.web[c.iss]
+}
+
+// forgerOf: the DID of ANOTHER party in the given textual relation to the victim's DID ("lookalike" parties).
+func (r *runState) forgerOf(victim did.DID, rel string) string {
+	v := victim.String()
+	switch rel {
+	case "prefix": // a proper prefix that ends in the middle of the last segment
+		return v[:len(v)-1]
+	case "parent": // a proper prefix that ends at a segment boundary: the root DID of a did:web, the bare script prefix of a did:nuts
+		if victim.Method == "web" {
+			return "did:web:issuer.example"
+		}
+		return "did:nuts:" + r.sid
+	case "extension": // the victim's DID is a proper prefix of the forger's
+		return v + "z"
+	}
+	if victim.Method == "web" {
+		return r.atkWeb.String()
+	}
+	return r.atkNuts.String()
+}
+
+// forger makes the lookalike party real: a resolvable DID document with a key the outsider holds. Returns its key id.
+func (r *runState) forger(victim did.DID, rel string) (did.DID, string, error) {
+	id := r.forgerOf(victim, rel)
+	d, err := did.ParseDID(id)
+	if err != nil {
+		return did.DID{}, "", err
+	}
+	if kid, ok := r.forgers[id]; ok {
+		return *d, kid, nil
+	}
+	kid := id + "#k1"
+	if _, _, err := r.w.res.Resolve(*d, nil); err == nil {
+		if exists, _ := r.w.atkKS.Exists(r.w.ctx, kid); exists {
+			r.forgers[id] = kid
+			return *d, kid, nil
+		}
+		return did.DID{}, "", fmt.Errorf("lookalike DID %s already belongs to someone else", id)
+	}
+	kid, err = r.w.res.add(r.w.ctx, r.w.atkKS, *d)
+	if err != nil {
+		return did.DID{}, "", err
+	}
+	r.forgers[id] = kid
+	return *d, kid, nil
+}
+
+// revocationDoc: the genuine published revocation, or a forged one built with the keys of another party (rel: how that
+// party's DID relates textually to the DID of the credential's issuer).
+func (r *runState) revocationDoc(c *credInfo, kind, rel string) ([]byte, error) {
 	w := r.w
-	owner := r.nuts[c.iss]
+	owner := r.didOf(c)
 	ownerKid := owner.String() + "#k1"
 	now := time.Now()
-	switch kind {
-	case "genuine":
+	if kind == "genuine" {
 		if c.payload == nil {
 			return nil, fmt.Errorf("no published revocation for %s", c.name)
 		}
 		return c.payload, nil
+	}
+	forgerDID, forgerKid, err := r.forger(owner, rel)
+	if err != nil {
+		return nil, err
+	}
+	switch kind {
 	case "othersigner": // names the credential's issuer, signed by (and with a key of) another party
-		return w.signLD(w.atkKS, credential.BuildRevocation(owner.URI(), *c.vc.ID), r.atkNutsKid, now)
-	case "otherissuer": // another party revokes it in its own name
-		return w.signLD(w.atkKS, credential.BuildRevocation(r.atkNuts.URI(), *c.vc.ID), r.atkNutsKid, now)
+		return w.signLD(w.atkKS, credential.BuildRevocation(owner.URI(), *c.vc.ID), forgerKid, now)
+	case "otherissuer": // another party revokes it in its own name, with its own valid signature
+		return w.signLD(w.atkKS, credential.BuildRevocation(forgerDID.URI(), *c.vc.ID), forgerKid, now)
 	case "wrongkey": // claims the issuer's key id, signed with the outsider's private key
 		if exists, _ := w.atkKS.Exists(w.ctx, ownerKid); !exists {
 			if _, _, err := w.atkKS.New(w.ctx, nutsCrypto.StringNamingFunc(ownerKid)); err != nil {
@@ -1034,10 +1285,10 @@ func (r *runState) revocationDoc(c *credInfo, kind string) ([]byte, error) {
 			}
 		}
 		return w.signLD(w.atkKS, credential.BuildRevocation(owner.URI(), *c.vc.ID), ownerKid, now)
-	case "resubject": // a genuine revocation of ANOTHER credential id of the same issuer, with the subject replaced
+	case "resubject": // a genuine revocation of ANOTHER credential id of the same issuer (a did:nuts one), with the subject replaced
 		doc := r.dummyRev[c.iss]
 		if doc == nil {
-			other := ssi.MustParseURI(owner.String() + "#" + uuid.NewString())
+			other := ssi.MustParseURI(r.nuts[c.iss].String() + "#" + uuid.NewString())
 			before := len(w.inode.net.published)
 			if _, err := w.inode.iss.Revoke(w.ctx, other); err != nil {
 				return nil, err
@@ -1082,11 +1333,27 @@ func (r *runState) addForeign() error {
 	return nil
 }
 
+// finishPending lets every operation that still stands at the gate run to its end (a script may end, or fail, in between).
+func (r *runState) finishPending() {
+	g := r.w.inode.gate
+	g.disarm()
+	for k, pd := range r.pend {
+		pd.open()
+		select {
+		case <-pd.done:
+		case <-time.After(30 * time.Second):
+			r.res.Error = "operation " + k + " does not return"
+		}
+		delete(r.pend, k)
+	}
+}
+
 func (w *world) runScript(sc script) *result {
 	r, err := w.newRun(sc)
 	if err != nil {
 		return &result{ID: sc.ID, Violations: []violation{}, Error: "setup: " + err.Error()}
 	}
+	defer r.finishPending()
 	if err := r.addForeign(); err != nil {
 		r.res.Error = "setup: " + err.Error()
 		return r.res
